@@ -39,6 +39,7 @@ type c02forest struct {
 	dirs   []string // relative names of directories
 	all    []string // every name usable as a path component
 	nlinks int
+	cwd    string // the tracee's current working directory, relative to root (follows chdir/fchdir)
 }
 
 func buildForest(c *vcore.Ctx, root string) *c02forest {
@@ -145,7 +146,21 @@ func (f *c02forest) genPath(c *vcore.Ctx, base string) string {
 	case 0:
 		return f.walkPath(c, base)
 	case 1:
-		return f.walkPath(c, "")
+		p := f.walkPath(c, "")
+		if src.Bool(1, 5, "via_proc_self") {
+			// the same object through the program's own /proc/self links, in several spellings: they denote
+			// the *program's* root and working directory, not the tracer's
+			pre := src.Pick("proc_self_spelling", "/proc/self/root", "/proc//self/root", "//proc/self/root", "/proc/self//root", "/proc/thread-self/root", "/proc/self/root/")
+			c.Event("via_proc_self_root")
+			return pre + p
+		}
+		return p
+	case 2:
+		if src.Bool(1, 4, "via_proc_self_cwd") {
+			pre := src.Pick("proc_cwd_spelling", "/proc/self/cwd/", "/proc//self/cwd/", "//proc/self/cwd/", "/proc/self//cwd/", "/proc/self/cwd//")
+			c.Event("via_proc_self_cwd")
+			return pre + strings.TrimPrefix(f.walkPath(c, f.cwd), "./")
+		}
 	}
 	n := 1 + src.Int(5, "ncomp")
 	var parts []string
@@ -181,6 +196,20 @@ func kernelResolve(pid int, dfd uint64, path string, follow bool) (string, bool)
 		return "", false
 	}
 	full := path
+	if strings.HasPrefix(path, "/") {
+		// /proc/self and /proc/thread-self mean the calling program: translate them to the tracee for the
+		// harness's own O_PATH opens (the kernel collapses repeated slashes first)
+		q := path
+		for strings.Contains(q, "//") {
+			q = strings.ReplaceAll(q, "//", "/")
+		}
+		for _, m := range [][2]string{{"/proc/thread-self", fmt.Sprintf("/proc/%d/task/%d", pid, pid)}, {"/proc/self", fmt.Sprintf("/proc/%d", pid)}} {
+			if q == m[0] || strings.HasPrefix(q, m[0]+"/") {
+				full = m[1] + q[len(m[0]):]
+				break
+			}
+		}
+	}
 	if !strings.HasPrefix(path, "/") {
 		d := int32(uint32(dfd))
 		if d == unix.AT_FDCWD {
@@ -257,6 +286,7 @@ func c02Run(c *vcore.Ctx) *vcore.Violation {
 	}
 	f := buildForest(c, root)
 	cwdRel := f.dirs[src.Int(len(f.dirs), "cwd")]
+	f.cwd = cwdRel
 	cwd := filepath.Join(root, cwdRel)
 	// two directory descriptors of the tracee (3 and 4), opened by the harness
 	d3rel, d4rel := f.dirs[src.Int(len(f.dirs), "fd3")], f.dirs[src.Int(len(f.dirs), "fd4")]
@@ -267,7 +297,7 @@ func c02Run(c *vcore.Ctx) *vcore.Violation {
 	c.Logf("cwd=%s fd3=%s fd4=%s", cwdRel, d3rel, d4rel)
 
 	dfdEnc := func() (string, uint64) {
-		switch src.Int(8, "dfdenc") {
+		switch src.Int(9, "dfdenc") {
 		case 0, 1:
 			return "-100", 0xffffffffffffff9c
 		case 2:
@@ -280,6 +310,10 @@ func c02Run(c *vcore.Ctx) *vcore.Violation {
 			return "0xdeadbeef00000003", 0xdeadbeef00000003 // garbage in the upper half: the kernel takes an int
 		case 6:
 			return "0x7fffffff00000004", 0x7fffffff00000004
+		case 7:
+			// a descriptor that is not open: with an absolute name the kernel never looks at it
+			k := src.Int(3, "dead_dfd")
+			return []string{"-1", "9999", "77"}[k], []uint64{0xffffffffffffffff, 9999, 77}[k]
 		}
 		return "0xabcdef01ffffff9c", 0xabcdef01ffffff9c
 	}
@@ -462,8 +496,10 @@ func c02Run(c *vcore.Ctx) *vcore.Violation {
 				fd := 3 + src.Int(2, "chfd")
 				script = append(script, "sys", "81", fmt.Sprint(fd), "0", "0", "0", "0", "0")
 				cwdRel = []string{d3rel, d4rel}[fd-3]
+				f.cwd = cwdRel
 			} else {
 				cwdRel = f.dirs[src.Int(len(f.dirs), "chdir_to")]
+				f.cwd = cwdRel
 				script = append(script, "sys", "80", "s:"+filepath.Join(root, cwdRel), "0", "0", "0", "0", "0")
 			}
 			c.Event("chdir")
